@@ -232,6 +232,9 @@ def dd_integral(mp, x, eta, terms, n, sea):
     return -v, e
 
 
+POLE_WINDOW = 1e-4   # |alpha_sea - 1| below which a sea-GPD miss is attributed to the known Gamma(1+p) pole of _intsea.  The
+#                     defect bites for |alpha_sea - 1| <~ 1e-5 and tolerance() already grows like 1/(1+p) through g_pref;
+#                     a wider window (it was 0.02, i.e. |dt| < 0.13, ~27 % of the t-range) silenced every other sea error there
 K_ROUND = 16.      # observed <= 1.8 (calibration over 2000 points); 16 leaves a factor ~10
 CAP = 1e-2         # whatever the conditioning: within 1 % of the unsuppressed scale sum |c| m^p
 FLOOR = 1e-12
@@ -361,6 +364,98 @@ def gk_points(rng, n):
 # ----------------------------------------------------------------------------------
 
 
+def eff_order_stream(rep, rng, mp, g, kelly, dipole, quick):
+    """ORACLE stream: F1, F2 as a TABLE.  A table or a plot evaluates the form factors point by point on a regular grid of t
+    (integers and half-integers, given as float, int or numpy scalars), on one long-lived object, on fresh objects and on
+    the shipped theories that derive from KellyEFF, in whatever order.  Every single value must equal Kelly's published
+    parametrisation (dipole: the standard dipole within 1 %) whatever was evaluated before: each chain walks the grid in
+    another order (ascending, descending, shuffled, interleaved with other particles / form factors), so every grid point
+    is evaluated several times with different predecessors."""
+    import numpy as np
+    from gepard.eff import KellyEFF, DipoleEFF
+    from gepard import fits
+    grid = [0, -0.5, -1, -1.5, -2, -2.5, -3, -3.5, -4, -5, -6, -7, -8, -9, -10, -0.25, -0.75, -0.1]
+    grid += [-round(rng.uniform(0, 10), 1) for _ in range(4 if quick else 40)]
+    refs = {}
+
+    def reference(part, t):
+        k = (part, float(t))
+        if k not in refs:
+            refs[k] = kelly_published(mp, part, float(t))
+        return refs[k]
+
+    def typed(t, ty):
+        if ty == 'int':
+            return int(t)
+        if ty == 'np.float64':
+            return np.float64(t)
+        if ty == 'np.int64':
+            return np.int64(int(t))
+        return float(t)
+
+    objs = [('shared KellyEFF()', lambda: kelly), ('fresh KellyEFF()', lambda: KellyEFF())]
+    for nm_ in ('th_KM15', 'th_AFKM12', 'th_KM10b'):
+        th_ = getattr(fits, nm_, None)
+        if th_ is not None and isinstance(th_, KellyEFF):
+            objs.append(('gepard.fits.' + nm_, lambda th_=th_: th_))
+    orders = ['descending', 'ascending', 'shuffled', 'shuffled']
+    nchains = 10 if quick else 120
+    for c in range(nchains):
+        oname, mk = objs[c % len(objs)]
+        obj = mk()
+        order = orders[c % len(orders)] if c < 8 else rng.choice(orders)
+        ty = ['float', 'int', 'np.float64', 'np.int64', 'float'][c % 5]
+        pts = [t for t in grid if ty in ('float', 'np.float64') or float(t) == int(t)]
+        pts = sorted(set(pts), reverse=(order == 'descending'))       # 'descending': t = 0, -0.1, ..., -10
+        if order == 'shuffled':
+            rng.shuffle(pts)
+        seq = [(t, part, which) for t in pts for part in ('p', 'n') for which in ('F1', 'F2')]
+        if c % 3 == 2:
+            # form factor by form factor instead of point by point
+            seq = [(t, part, which) for part in ('p', 'n') for which in ('F1', 'F2') for t in pts]
+        done = []
+        for t, part, which in seq:
+            tv = typed(t, ty)
+            rep.case('eff-order', (oname, order, ty, c, t, part, which),
+                     sample=dict(object=oname, order=order, number_type=ty, t=t, particle=part, which=which))
+            rep.hist('eff-order.type', ty)
+            F1r, F2r, s1, s2, dA = reference(part, t)
+            r, sc = (F1r, s1) if which == 'F1' else (F2r, s2)
+            tol = 1e-12 * float(sc) + KELLY['GEn']['dA'] * abs(float(dA))
+            try:
+                v = float(getattr(obj, which)(g.DataPoint(t=tv, in2particle=part)))
+            except Exception as e:
+                rep.violation('eff/kelly/%s/%s' % (part, exc_name(e)), '%s.%s raised %r at t=%r (%s), particle %s' % (oname, which, e, t, ty, part),
+                              dict(t=t, number_type=ty, in2particle=part, object=oname))
+                continue
+            if not finite(v) or abs(v - float(r)) > tol:
+                prev = [d_ for d_ in done if d_[1] == part and d_[2] == which][-3:]
+                rep.violation('eff/kelly/%s/%s/published' % (part, which),
+                              '%s.%s(t=%r as %s, %s) = %r but Kelly\'s published parametrisation gives %r (allowed %g); evaluated in a %s '
+                              'walk over a t-grid, the previous evaluations of this form factor were at t = %s' % (
+                                  oname, which, t, ty, part, v, float(r), tol, order, [d_[0] for d_ in prev]),
+                              dict(t=t, number_type=ty, in2particle=part, object=oname, observed=v, required=float(r), tolerance=tol,
+                                   evaluated_before=[list(d_) for d_ in done[-12:]],
+                                   cmd="python -c \"import gepard as g; from gepard.eff import KellyEFF; k = KellyEFF(); "
+                                       "[print(t, k.%s(g.DataPoint(t=t, in2particle='%s'))) for t in %r]\"" % (
+                                           which, part, [d_[0] for d_ in prev] + [t])))
+            done.append((t, part, which))
+    # the dipole on the same grid (proton only), both orders
+    for order in ('descending', 'ascending'):
+        for t in sorted(set(grid), reverse=(order == 'descending')):
+            s1, s2 = std_dipole(mp, float(t))
+            for nm, sref in (('F1', s1), ('F2', s2)):
+                rep.case('eff-order', ('dipole', order, t, nm), sample=None)
+                try:
+                    v = float(getattr(dipole, nm)(g.DataPoint(t=t, in2particle='p')))
+                except Exception as e:
+                    rep.violation('eff/dipole/%s/%s' % (nm, exc_name(e)), 'DipoleEFF.%s raised %r at t=%r' % (nm, e, t), dict(t=t))
+                    continue
+                if not abs(v - float(sref)) <= 0.01 * float(sref):
+                    rep.violation('eff/dipole/%s/1pc' % nm, 'DipoleEFF.%s(t=%r) = %r deviates more than 1 %% from the standard dipole %r '
+                                  '(%s walk over a t-grid)' % (nm, t, v, float(sref), order), dict(t=t, observed=v, required=float(sref)))
+
+
 def run(rep):
     import mpmath as mp
     import gepard as g
@@ -471,6 +566,9 @@ def run(rep):
             rep.violation('eff/static/' + k, 'static limit %s(0) = %r, required %r' % (k, stat[k], want[k]),
                           dict(t=0.0, observed=stat[k], required=want[k]))
 
+    # ================= eff-order: tables on a regular grid, point by point, in several orders, several number types =================
+    eff_order_stream(rep, rng, mp, g, kelly, dipole, quick)
+
     # ================= GK dispatch: model vs code =================
     gk = GoloskokovKrollCFF()
 
@@ -539,7 +637,13 @@ def run(rep):
         rep.hist('gk.dispatch.region', region_of(x, eta))
 
     # ================= model vs code: compare =================
-    out = common.run_driver(lines)
+    try:
+        out = common.run_driver(lines)
+    except common.ModelUnavailable as ex:
+        # no model: the oracle streams (before and after this point) evaluate the property on the real code regardless
+        out = []
+        rep.violation('model-unavailable', 'the Lean model of C19 could not be run (%s): the model-vs-code streams eff / gk-dispatch were '
+                      'not compared; the oracle streams ran' % str(ex)[:300], dict(reason=str(ex)[:300]), found_input=False)
     for line, m, o in zip(lines, meta, out):
         kind = m['kind']
         if kind == 'eff':
@@ -641,7 +745,7 @@ def run(rep):
         nonlocal quad_bad
         reg = region_of(x, eta)
         sea = name in SEA
-        near_pole = sea and abs(alpha_sea(t, Q2) - 1) < 0.02
+        near_pole = sea and abs(alpha_sea(t, Q2) - 1) < POLE_WINDOW
         cmd = ("python -c \"from gepard.gk import GoloskokovKrollCFF as G; print(G().%s(%r, %r, %r, %r))\""
                % (name, x, eta, t, Q2))
         r, e, tol = ref(name, x, eta, t, Q2)
@@ -694,9 +798,50 @@ def run(rep):
         if rng.random() < 0.3:
             # the same (x, eta, t) at ANOTHER scale right afterwards, on the same model object
             Q2b = rng.uniform(2, 40)
-            if abs(alpha_sea(t, Q2b) - 1) > 0.03:
+            if abs(alpha_sea(t, Q2b) - 1) > 2 * POLE_WINDOW:
                 for name in names:
                     check_gpd(name, x, eta, t, Q2b, 'gk-oracle', cls + '/second-scale')
+                ref.cache.clear()
+
+    # ================= gk-order: the same GPDs on the same object twice, in another order, with other number types =================
+    # a GPD value may not depend on what the object evaluated before: first pass against the DD integral (check_gpd), second
+    # pass over the same points in reversed order with a fresh object in between, integers / numpy scalars for t and Q2
+    import numpy as np
+    opts = [(x, eta, t, Q2, cls) for x, eta, t, Q2, cls in gk_points(rng, 6 if quick else 60)]
+    opts += [(0.3, 0.1, -1, 4, 'integers'), (-0.05, 0.2, 0, 10, 'integers'), (0.15, 0.15, -1, 2, 'integers'), (0.4, 0.05, -1.0, 3.0, 'integers')]
+    first = []
+    for x, eta, t, Q2, cls in opts:
+        for name in rng.sample(ALL_GPDS, 3):
+            if name in SEA and abs(alpha_sea(float(t), float(Q2)) - 1) < 2 * POLE_WINDOW:
+                continue
+            ratio = check_gpd(name, x, eta, float(t), float(Q2), 'gk-order', cls)
+            try:
+                v1 = float(getattr(gk, name)(x, eta, t, Q2))
+            except Exception:
+                continue
+            first.append((name, x, eta, t, Q2, v1, ratio))
+        ref.cache.clear()
+    gk_fresh = GoloskokovKrollCFF()
+    for name, x, eta, t, Q2, v1, ratio in reversed(first):
+        variants = [('same object, reversed order', gk, t, Q2), ('fresh object', gk_fresh, t, Q2),
+                    ('numpy scalars', gk, np.float64(t), np.float64(Q2))]
+        for label, obj, tt, QQ in variants:
+            rep.case('gk-order', (name, x, eta, float(t), float(Q2), label), sample=None)
+            try:
+                v2 = float(getattr(obj, name)(x, eta, tt, QQ))
+            except Exception as ex:
+                rep.violation('gk/order/%s' % exc_name(ex), '%s(x=%r, eta=%r, t=%r, Q2=%r) evaluated a second time (%s) raises %s, the first '
+                              'evaluation gave %r' % (name, x, eta, t, Q2, label, exc_name(ex), v1), dict(function=name, x=x, eta=eta, t=t, Q2=Q2))
+                continue
+            if not (v2 == v1 or (v1 != v1 and v2 != v2)):
+                # which of the two is off the DD integral?  (a concrete failing input only then)
+                r, e, tol = ref(name, x, eta, float(t), float(Q2))
+                full = tol + 1e-9 * abs(float(r))
+                off = [v for v in (v1, v2) if not (finite(v) and abs(v - float(r)) <= full)]
+                rep.violation('gk/order/%s' % name, '%s(x=%r, eta=%r, t=%r, Q2=%r) = %r when first evaluated, %r when evaluated again (%s); '
+                              'the DD integral is %r (allowed %.3g)' % (name, x, eta, t, Q2, v1, v2, label, float(r), full),
+                              dict(function=name, x=x, eta=eta, t=float(t), Q2=float(Q2), observed=[v1, v2], required=float(r), tolerance=full),
+                              found_input=bool(off))
                 ref.cache.clear()
 
     # ================= gk-symmetry on the real code =================
@@ -732,15 +877,19 @@ def run(rep):
     # ================= gk-switch: Taylor branch joins the exact expression =================
     nsw = 40 if quick else 600
     jump_obs = {'val': 0., 'sea': 0.}
+    int_sea = common.private(rep, gk, '_intsea', 'gk-switch (continuity of the Taylor branch of the private integrals) is skipped')
+    int_val = common.private(rep, gk, '_intval', 'gk-switch (continuity of the Taylor branch of the private integrals) is skipped')
+    if int_sea is None or int_val is None:
+        nsw = 0         # the public GPD functions are compared with the DD integral on both sides of the switch by gk-oracle ('sea-switch', 'small-eta')
     for i in range(nsw):
         sea = i % 2 == 1
         x = rng.uniform(0.02, 0.97)
         t = rng.uniform(-1, 0)
         Q2 = rng.uniform(2, 40)
         if sea:
-            alt, j, thr, n, fn = alpha_sea(t, Q2), rng.randrange(5), 1e-2, 2, gk._intsea
+            alt, j, thr, n, fn = alpha_sea(t, Q2), rng.randrange(5), 1e-2, 2, int_sea
         else:
-            alt, j, thr, n, fn = 0.48 + rng.choice([0.9, 0.45]) * t, rng.randrange(0, 9), 1e-4, 1, gk._intval
+            alt, j, thr, n, fn = 0.48 + rng.choice([0.9, 0.45]) * t, rng.randrange(0, 9), 1e-4, 1, int_val
         p = -alt + j / 2
         d = 10 ** rng.uniform(-9, -5)
         lo, hi = x * thr * (1 - d), x * thr * (1 + d)
@@ -769,7 +918,7 @@ def run(rep):
         elif jump > tlo + thi + abs(float(rhi - rlo)):
             bad = ('jump at the switch', hi, vhi, vlo, tlo + thi)
         if bad:
-            near_pole = sea and abs(1 + p) < 0.02
+            near_pole = sea and abs(1 + p) < POLE_WINDOW
             rep.violation('gk/sea/alpha1-pole' if near_pole else 'gk/switch/%s' % kind,
                           '_int%s(x=%r, eta=%r, alt=%r, j=%d): %s gives %r, required %r (allowed %.3g)' % (
                               kind, x, bad[1], alt, j, bad[0], bad[2], bad[3], bad[4]),
